@@ -68,6 +68,7 @@ def plan(tier, seed):
     specs += [{"what": "silence", "targets": p} for p in C.split_round_robin(idx, 6)]
     specs += [{"what": "history", "part": i} for i in range(6)]
     specs += [{"what": "threads", "part": i} for i in range(2)]
+    specs.append({"what": "race", "suites": ["mixed", "reader"]})
     return specs
 
 
@@ -358,6 +359,10 @@ def snapshot(m):
 
 
 def check(case) -> core.Out:
+    if isinstance(case, dict) and case.get("kind") == "race":
+        from vp.props import racing
+
+        return racing.check_race(PROP, case)
     import pyubx2
 
     k = case["kind"]
@@ -649,6 +654,12 @@ def any_op():
 
 
 def run_shard(spec, ctx, acc):
+    if spec.get("what") == "race":
+        # steady-state concurrency (see vp/props/racing.py)
+        for suite in spec["suites"]:
+            case = {"kind": "race", "suite": suite, "seconds": 1.2 if ctx["tier"] == "quick" else 20}
+            core.handle(acc, check(case), case, set(ctx["known"]))
+        return
     known = set(ctx["known"])
     quick = ctx["tier"] == "quick"
     targets = C.cat()[0]
